@@ -28,7 +28,9 @@ EXTENDS Naturals, Sequences, FiniteSets, TLC
 CONSTANTS MaxLen,         \* every string over Alphabet up to this length is a case
           TailLen,        \* ... and every string  k = t  with t over Alphabet up to this length (every grammar-valid
                           \*     header starts with a key; this reaches valid headers two characters longer)
-          Alphabet,
+          Alphabet,       \* the delimiter alphabet used for those two exhaustive parts
+          EscAlphabet,    \* percent-escape symbols (subset of Esc) ...
+          EscTailLen,     \* ... every string  k = t  with t over Alphabet \cup EscAlphabet up to this length
           FamilyDepth     \* 0: no structured family; 1: one/two elements; 2: also three elements
 
 Letter(ch) == ch \in {"k", "v"}
@@ -74,9 +76,10 @@ Parse(s) == LET st == Scan(s, 1, St0) IN
             ELSE [ok |-> FALSE, elems |-> <<>>]
 
 \* ------------------------------------------------------------------ case space
-RECURSIVE StrUpTo(_)
-StrUpTo(n) == IF n = 0 THEN {<<>>}
-              ELSE LET prev == StrUpTo(n - 1) IN prev \cup {Append(s, ch) : s \in prev, ch \in Alphabet}
+RECURSIVE StrUpToA(_, _)
+StrUpToA(n, A) == IF n = 0 THEN {<<>>}
+                  ELSE LET prev == StrUpToA(n - 1, A) IN prev \cup {Append(s, ch) : s \in prev, ch \in A}
+StrUpTo(n) == StrUpToA(n, Alphabet)
 
 \* structured family: longer grammar-valid headers than the exhaustive bound reaches -- quoted values that contain
 \* what looks like further pairs / elements, escaped quotes, escaped backslashes before the closing quote
@@ -103,7 +106,7 @@ Family == IF FamilyDepth = 0 THEN {}
                \cup {a \o <<",">> \o b \o <<",">> \o c : a \in E3, b \in E3, c \in E3}    \* first / middle / last differ
                \cup (IF FamilyDepth >= 2 THEN {a \o <<",">> \o b \o <<",">> \o c : a \in E1, b \in E2, c \in E1} ELSE {})
 
-KeyedTails == {<<"k", "=">> \o t : t \in StrUpTo(TailLen)}
+KeyedTails == {<<"k", "=">> \o t : t \in StrUpTo(TailLen) \cup StrUpToA(EscTailLen, Alphabet \cup EscAlphabet)}
 Cases == {[k |-> "absent", s |-> <<>>]} \cup {[k |-> "str", s |-> s] : s \in StrUpTo(MaxLen) \cup KeyedTails \cup Family}
 
 OnlyCommas(s) == Len(s) >= 1 /\ \A i \in 1..Len(s) : s[i] = ","
